@@ -18,8 +18,7 @@ that is created is `phone` -/
 theorem path_shape : pathFmt = "./%s/%s" ∧ pathFirstArg = "phone" ∧ pathArgCount = 2 ∧ writeTarget = "savePath" ∧
     mkdirTarget = "phone" := by decide
 /-- `phone` is the header's phone string of the last terminal message -/
-theorem phone_is_header_phone :
-    phoneSource = "progress.ExtensionFields.RecentTerminalMessage.Header.TerminalPhoneNo" := by decide
+theorem phone_is_header_phone : phoneIsHeaderPhone = true := by decide
 /-- the only calls in package `attachment` that can create a file-system entry -/
 theorem only_these_create_files : creators =
     ["file_event.go:os.MkdirAll(phone)", "file_event.go:os.OpenFile(\"file.log\")", "file_event.go:os.WriteFile(savePath)"] := by
